@@ -112,6 +112,11 @@ func (s *dSys) subscribeKey(exclusive bool, key string) {
 	if exclusive {
 		opts = append(opts, discov.Exclusive())
 	}
+	// what a snapshot read during the join returns (a change may land right after it: subgap)
+	atSnapshot := map[string]string{}
+	for k, v := range s.f.KV {
+		atSnapshot[k] = v
+	}
 	sub, err := discov.NewSubscriber(append([]string{}, dEndpoints...), key, opts...)
 	if err != nil {
 		s.r.Failf("NewSubscriber: %v", err)
@@ -126,7 +131,7 @@ func (s *dSys) subscribeKey(exclusive bool, key string) {
 			cur[k] = v // other prefixes are not reloaded by this join
 		}
 	}
-	for k, v := range under(key, s.f.KV) {
+	for k, v := range under(key, atSnapshot) {
 		cur[k] = v
 	}
 	for _, o := range s.subs {
@@ -196,6 +201,57 @@ func (s *dSys) apply(op string) bool {
 		} else {
 			s.subscribe(f[1] == "x")
 		}
+	case "subgap":
+		// the first subscriber joins while a publisher registers between the snapshot read
+		// and the start of the watch: the watch starts from the snapshot's revision, so the
+		// registration is still delivered
+		if len(s.subs) != 0 || !s.f.Connected {
+			return false
+		}
+		if _, ok := s.f.KV[full(f[1])]; ok {
+			return false
+		}
+		s.f.AfterGet = func() { s.f.PutKV(full(f[1]), dValueOf[f[1]]) }
+		s.subscribe(false)
+		vrt.Settle()
+		if s.f.AfterGet != nil {
+			s.r.Failf("the join did not read a snapshot")
+			s.f.AfterGet = nil
+			return true
+		}
+		s.pending = append(s.pending, "put:"+f[1])
+	case "reconnectgap":
+		// the same during a reload after a connection loss
+		if s.f.Connected || len(s.subs) == 0 {
+			return false
+		}
+		for _, d := range s.subs {
+			if d.key != dKey {
+				return false
+			}
+		}
+		if _, ok := s.f.KV[full(f[1])]; ok {
+			return false
+		}
+		cur := map[string]string{}
+		for k, v := range s.f.KV {
+			cur[k] = v
+		}
+		s.f.AfterGet = func() { s.f.PutKV(full(f[1]), dValueOf[f[1]]) }
+		internal.VerifReconnect(dEndpoints, s.f)
+		vrt.Settle()
+		if s.f.AfterGet != nil {
+			s.r.Failf("the reload did not read a snapshot")
+			s.f.AfterGet = nil
+			return true
+		}
+		old := fmt.Sprint(sortedKV(s.visible))
+		for _, d := range s.subs {
+			d.snapshot(under(d.key, s.visible), under(d.key, cur))
+		}
+		s.visible = cur
+		changed = old != fmt.Sprint(sortedKV(s.visible))
+		s.pending = append(s.pending, "put:"+f[1])
 	case "put":
 		if _, ok := s.f.KV[full(f[1])]; ok {
 			return false
@@ -214,6 +270,10 @@ func (s *dSys) apply(op string) bool {
 		}
 	case "deliver":
 		if !s.f.Pending() {
+			if len(s.pending) > 0 {
+				s.r.Failf("changes %v happened after the subscriber's snapshot while connected, but no live watch is going to deliver them: the subscriber will not converge", s.pending)
+				return true
+			}
 			return false
 		}
 		s.f.Deliver()
@@ -347,12 +407,12 @@ func (s *dSys) canon() string {
 func TestVerifDiscovHistories(t *testing.T) {
 	defer vrt.WriteReport()
 	logx.Disable()
-	ops := []string{"sub:n", "sub:x", "sub:o", "put:o1", "del:o1", "put:k1", "put:k2", "put:k3", "del:k1", "del:k2", "del:k3", "deliver", "disconnect", "reconnect"}
+	ops := []string{"sub:n", "sub:x", "sub:o", "subgap:k1", "reconnectgap:k2", "put:o1", "del:o1", "put:k1", "put:k2", "put:k3", "del:k1", "del:k2", "del:k3", "deliver", "disconnect", "reconnect"}
 	depth := 7
 	if vrt.Thorough() {
 		depth = 9
 	}
-	for i, first := range []string{"sub:n", "sub:x", "put:k1", "put:k2", "put:k3", "sub:o", "put:o1"} {
+	for i, first := range []string{"sub:n", "sub:x", "put:k1", "put:k2", "put:k3", "sub:o", "put:o1", "subgap:k1"} {
 		if !vrt.Shard(i) {
 			continue
 		}
